@@ -54,16 +54,21 @@ type plan struct {
 	pos  [][]instr
 }
 
-func plans(tier string, primary bool) []plan {
+// plans: quick = every program of length 2 over the full alphabet; thorough adds length 3 with the reduced
+// alphabet at the later positions (everywhere), at the first position too (primary configurations) and
+// full x full x reduced on the first configuration.
+func plans(tier string, primary, first bool) []plan {
 	full, core := alphabet(), coreAlphabet()
+	p := []plan{{"L2", [][]instr{full, full}}}
 	if tier == "quick" {
-		return []plan{{"L2", [][]instr{full, full}}}
+		return p
 	}
-	p := []plan{{"L3fcc", [][]instr{full, core, core}}, {"L3cfc", [][]instr{core, full, core}}}
+	p = append(p, plan{"L3fcc", [][]instr{full, core, core}})
 	if primary {
+		p = append(p, plan{"L3cfc", [][]instr{core, full, core}})
+	}
+	if first {
 		p = append(p, plan{"L3ffc", [][]instr{full, full, core}})
-	} else {
-		p = append(p, plan{"L2", [][]instr{full, full}})
 	}
 	return p
 }
@@ -79,12 +84,36 @@ func scenarios(tier string) []engine.Scenario {
 			}
 			return e
 		}
+		scs = append(scs, decoderScenario(cf, get))
+		// spine: the canonical deep program (MulRelin by a fresh ciphertext, Rescale, ... down to level 0) with at
+		// most 1 (quick) / 2 (thorough) deviations into the reduced alphabet (DESIGN: "length <= 5 along spine")
+		{
+			name := cf.Name + "/spine"
+			bound := 1
+			if tier == "thorough" {
+				bound = 2
+			}
+			scs = append(scs, engine.Scenario{Name: name, Bound: bound, Fn: func(c *engine.Chooser) {
+				e := get(c)
+				core := coreAlphabet()
+				var pos [][]instr
+				for d := 0; d < e.maxLvl/e.k; d++ {
+					pos = append(pos, append([]instr{{"MulRelin", "ct-other", "inplace", true}}, core...))
+					pos = append(pos, append([]instr{{"Rescale", "-", "inplace", true}}, core...))
+				}
+				c.Cover("plan", "spine")
+				runProgram(c, e, name, 0, pos[0], pos[1:])
+			}})
+		}
 		primary := ci == 0 || cf.Name == "std4-s80-P2" || cf.Name == "ci4-s45-P1"
-		for _, pl := range plans(tier, primary) {
+		for _, pl := range plans(tier, primary, ci == 0) {
 			pl := pl
 			names, groups := opGroups(pl.pos[0])
 			for init := range initNames {
 				init := init
+				if !primary && init == 4 {
+					continue // the degree-2 operand file is explored on the primary configurations
+				}
 				if tier == "quick" && !primary && init != 0 && init != 2 {
 					continue // quick: secondary configurations start from the equal-scales and the rescaled-operand files only
 				}
@@ -163,7 +192,7 @@ func main() {
 				"auxiliary-primes=0", "auxiliary-primes=1", "auxiliary-primes=2", "packing=sparse", "packing=full", "slots=1", "slots=2", "slots=4", "slots=8", "slots=16",
 				"scales=equal", "scales=ratio-integer", "scales=ratio-non-integer", "scalar-path=gaussian-integer", "scalar-path=non-integer",
 				"mta-scale-up=integer-ratio", "mta-scale-up=equal", "mta-const=equal-scales", "mta-const=acc-scale-larger",
-				"oracle=tight", "dest=inplace", "dest=new", "dest=out", "dest=acc", "setscale=non-integer-ratio", "rescaleto=levels-0", "rescaleto=levels-1"}
+				"oracle=tight", "decoder=reused", "plan=spine", "dest=inplace", "dest=new", "dest=out", "dest=acc", "setscale=non-integer-ratio", "rescaleto=levels-0", "rescaleto=levels-1"}
 			seen := map[string]bool{}
 			for _, i := range alphabet() {
 				if !seen["op="+i.op] {
